@@ -34,17 +34,28 @@ STRUCTURAL_NAMES = ("enumerate", "isinstance", "len", "str", "list", "range")
 STRUCTURAL_PREFIX = ("logger.", "frontend_logger.")
 INLINED = {"self.read_process_image": "read", "self.write_process_image": "write"}
 
+# Conditions are compared in a canonical form in which the run-state flags of the engine are written by ROLE
+# (`flag:started`, `flag:paused`, `flag:holding`, `flag:stopping`), whatever the attributes are called on this tree
+# (role discovery: harness/runstate.py), so a consistent rename of the flags does not change the tables.
 COND_TOKENS = {
     "": "always",
     "not self._running": "notRunning",
-    "self._runstate_started": "started",
-    "self._runstate_started and (not self._runstate_paused) and (not self._runstate_holding) and (not self._runstate_stopping)":
-        "runnable",
+    "flag:started": "started",
+    "flag:started and (not flag:paused) and (not flag:holding) and (not flag:stopping)": "runnable",
     # write_process_image(force=False): `if not started and not force: return` in front of everything else
-    "not (not self._runstate_started and (not force))": "started",
+    "not (not flag:started and (not force))": "started",
     # per-register option (the conversion callback is called for the registers that declare one)
     "'to_tag' in r.options": "always",
 }
+
+
+def canonical_cond(text: str) -> str:
+    import re
+    from harness import runstate as RS
+    for role, attr in RS.roles().items():
+        if role in ("started", "paused", "holding", "stopping"):
+            text = re.sub(r"\bself\." + re.escape(attr) + r"\b", "flag:" + role, text)
+    return text
 
 
 def dotted(n: ast.AST) -> str:
@@ -404,7 +415,7 @@ def generate() -> Path:
     lines.append("]\n")
     lines.append("def tickPhases : List Phase := [")
     lines.append(",\n".join(
-        f"  ⟨{lean_str(p['fn'])}, {lean_str(p['callee'])}, .{COND_TOKENS.get(p['cond'], 'unknown')}, "
+        f"  ⟨{lean_str(p['fn'])}, {lean_str(p['callee'])}, .{COND_TOKENS.get(canonical_cond(p['cond']), 'unknown')}, "
         f"[{', '.join(lean_str(x) for x in p['catches'])}], .{p['handler']}, {'true' if p['returns'] else 'false'}⟩"
         for p in t["phases"]))
     lines.append("]\n")
